@@ -87,7 +87,9 @@ TRUSTED_BASE = [
     "fields and CRLF line ends throughout, bare quotes in unquoted fields for the LazyQuotes readers (cumulus, postfinance, "
     "swissquote), and the damaged kind `quote` (a bare quote / text after a closing quote) for the strict readers.  Sensitivity "
     "(scratch copies of the clean tree): swisscard2 without TrimLeadingSpace: 26 spec failures (well-formed statement not "
-    "imported); revolut2 with LazyQuotes = true: no spec failure - unobservable on every well-formed statement, since a text "
+    "imported; likewise revolut2 38, wise 24, postfinance 13, supercard 254 and 19 disagreements; swisscard and revolut "
+    "statements carried blanks after the delimiter before); model mutations of Model/CsvLatin1.v: FieldsPerRecord kept at 13 "
+    "after the header - 29, byte 0xA0 decoded to a blank - 42 spec failures csv-records on supercard; revolut2 with LazyQuotes = true: no spec failure - unobservable on every well-formed statement, since a text "
     "the strict reader accepts is read in the same way by the lazy one (proved: C13_csv_lazy_conservative, "
     "C13_csv_set_lazy_conservative in Properties/C13csv.v) - but 29 disagreements model/binary on the damaged kind `quote`",
     "Model/Csv.v restrictions: Comma/Comment ASCII (all importers), input from memory (no I/O error of the underlying reader), "
